@@ -183,10 +183,32 @@ func (rngdata *RangeNamespaceData) verifyShares(
 	if len(expectedRoots) != len(shares) {
 		return fmt.Errorf("mismatched row roots: expected %d vs got %d", len(shares), len(expectedRoots))
 	}
+	if len(shares) == 0 {
+		return errors.New("empty shares")
+	}
 	for i, row := range shares {
 		if len(row) == 0 {
 			return fmt.Errorf("empty shares at row %d", i)
 		}
+		// every row has to carry exactly the columns of the requested range that fall into it:
+		// the total amount alone does not pin the shares to their positions.
+		startCol, endCol := 0, odsSize-1
+		if i == 0 {
+			startCol = from.Col
+		}
+		if i == len(shares)-1 {
+			endCol = to.Col
+		}
+		if len(row) != endCol-startCol+1 {
+			return fmt.Errorf("mismatched number of shares at row %d: expected %d vs got %d", i, endCol-startCol+1, len(row))
+		}
+	}
+	// a row that is not complete can only be verified through its proof
+	if len(shares[0]) != odsSize && rngdata.FirstIncompleteRowProof == nil {
+		return errors.New("missing proof for the first incomplete row")
+	}
+	if len(shares) > 1 && len(shares[len(shares)-1]) != odsSize && rngdata.LastIncompleteRowProof == nil {
+		return errors.New("missing proof for the last incomplete row")
 	}
 	if rngdata.FirstIncompleteRowProof != nil && rngdata.FirstIncompleteRowProof.Start() != from.Col {
 		return fmt.Errorf(
